@@ -479,7 +479,8 @@ class PtBuild:
 
     def __init__(self, spec: dict[str, Any], vset: int = 0,
                  namer: Any = None, data_values: dict[int, np.ndarray] | None = None,
-                 post: Any = None, order: list[int] | None = None):
+                 post: Any = None, order: list[int] | None = None,
+                 input_arrays: dict[int, Any] | None = None):
         """*post(id, array)* may return a decorated (e.g. tagged) array for every input
         and node; *order* is an alternative (dependency-respecting) creation order of
         the node ids."""
@@ -493,6 +494,11 @@ class PtBuild:
         for inp in spec["inputs"]:
             i = inp["id"]
             kind = inp["kind"]
+            if input_arrays is not None and i in input_arrays:
+                # (C12) the caller supplies the array standing for this input
+                self.input_names[i] = None
+                self.nodes[i] = input_arrays[i]
+                continue
             if kind == "ph":
                 name = inp["name"] if namer is None else namer(i, inp)
                 self.input_names[i] = name
